@@ -163,3 +163,31 @@ W long w_permute(int shape, int eager, const ul* cnt, const ul* data, const ul* 
   switch(shape) { case 0: return permute<Shape::Hypercube<2>>(cnt, data, pcnt, ptopo, pdata, ptrg, use, perms, odata, ocoords, optrg); case 1: return permute<Shape::Simplex<2>>(cnt, data, pcnt, ptopo, pdata, ptrg, use, perms, odata, ocoords, optrg);
     case 2: return permute<Shape::Hypercube<3>>(cnt, data, pcnt, ptopo, pdata, ptrg, use, perms, odata, ocoords, optrg); default: return permute<Shape::Simplex<3>>(cnt, data, pcnt, ptopo, pdata, ptrg, use, perms, odata, ocoords, optrg); }
 }
+
+// boundary: (a) BoundaryFactory on the coarse mesh, (b) that part refined alongside the mesh, (c) BoundaryFactory on the refined mesh
+#include <kernel/geometry/boundary_factory.hpp>
+template<typename S> static long boundary(const ul* cnt, const ul* data, ul* obc, ul* obt, ul* ofc, ul* orc, ul* ort, ul* ofbc, ul* ofbt)
+{
+  typedef Geometry::ConformalMesh<S, S::dimension, double> Mesh; typedef Geometry::MeshPart<Mesh> Part;
+  Index ne[S::dimension + 1]; for(int d = 0; d <= S::dimension; ++d) ne[d] = Index(cnt[d]);
+  Mesh mesh(ne); set_coords<S>(mesh);
+  const ul* p = data; IO<S, 1, 0>::in(mesh.get_index_set_holder(), p);
+  Geometry::BoundaryFactory<Mesh> bf(mesh); Part bnd(bf);
+  for(int d = 0; d <= S::dimension; ++d) obc[d] = bnd.get_num_entities(d);
+  { ul* q = obt; TIO<Part, 0>::out(bnd, q); }
+  Geometry::StandardRefinery<Mesh> refinery(mesh); Mesh fine(refinery);
+  for(int d = 0; d <= S::dimension; ++d) ofc[d] = fine.get_num_entities(d);
+  Geometry::StandardRefinery<Part> prefinery(bnd, mesh); Part rbnd(prefinery);
+  for(int d = 0; d <= S::dimension; ++d) orc[d] = rbnd.get_num_entities(d);
+  { ul* q = ort; TIO<Part, 0>::out(rbnd, q); }
+  Geometry::BoundaryFactory<Mesh> bff(fine); Part fbnd(bff);
+  for(int d = 0; d <= S::dimension; ++d) ofbc[d] = fbnd.get_num_entities(d);
+  { ul* q = ofbt; TIO<Part, 0>::out(fbnd, q); }
+  return 0;
+}
+W long w_boundary(int shape, int eager, const ul* cnt, const ul* data, ul* obc, ul* obt, ul* ofc, ul* orc, ul* ort, ul* ofbc, ul* ofbt)
+{
+  g_eager = eager;
+  switch(shape) { case 0: return boundary<Shape::Hypercube<2>>(cnt, data, obc, obt, ofc, orc, ort, ofbc, ofbt); case 1: return boundary<Shape::Simplex<2>>(cnt, data, obc, obt, ofc, orc, ort, ofbc, ofbt);
+    case 2: return boundary<Shape::Hypercube<3>>(cnt, data, obc, obt, ofc, orc, ort, ofbc, ofbt); default: return boundary<Shape::Simplex<3>>(cnt, data, obc, obt, ofc, orc, ort, ofbc, ofbt); }
+}
